@@ -10,6 +10,9 @@ gen/Facts_vm.vos gen/Facts_vm.vok gen/Facts_vm.required_vos: gen/Facts_vm.v
 gen/Facts_vm_sites.vo gen/Facts_vm_sites.glob gen/Facts_vm_sites.v.beautified gen/Facts_vm_sites.required_vo: gen/Facts_vm_sites.v 
 gen/Facts_vm_sites.vio: gen/Facts_vm_sites.v 
 gen/Facts_vm_sites.vos gen/Facts_vm_sites.vok gen/Facts_vm_sites.required_vos: gen/Facts_vm_sites.v 
+gen/Facts_vm_writes.vo gen/Facts_vm_writes.glob gen/Facts_vm_writes.v.beautified gen/Facts_vm_writes.required_vo: gen/Facts_vm_writes.v 
+gen/Facts_vm_writes.vio: gen/Facts_vm_writes.v 
+gen/Facts_vm_writes.vos gen/Facts_vm_writes.vok gen/Facts_vm_writes.required_vos: gen/Facts_vm_writes.v 
 lib/Bytes.vo lib/Bytes.glob lib/Bytes.v.beautified lib/Bytes.required_vo: lib/Bytes.v 
 lib/Bytes.vio: lib/Bytes.v 
 lib/Bytes.vos lib/Bytes.vok lib/Bytes.required_vos: lib/Bytes.v 
@@ -31,6 +34,9 @@ model/HTMLEscapeM.vos model/HTMLEscapeM.vok model/HTMLEscapeM.required_vos: mode
 model/HtmlDecode.vo model/HtmlDecode.glob model/HtmlDecode.v.beautified model/HtmlDecode.required_vo: model/HtmlDecode.v lib/Bytes.vo lib/Utf8.vo
 model/HtmlDecode.vio: model/HtmlDecode.v lib/Bytes.vio lib/Utf8.vio
 model/HtmlDecode.vos model/HtmlDecode.vok model/HtmlDecode.required_vos: model/HtmlDecode.v lib/Bytes.vos lib/Utf8.vos
+model/IsolationM.vo model/IsolationM.glob model/IsolationM.v.beautified model/IsolationM.required_vo: model/IsolationM.v 
+model/IsolationM.vio: model/IsolationM.v 
+model/IsolationM.vos model/IsolationM.vok model/IsolationM.required_vos: model/IsolationM.v 
 proofs/Cancel_proofs.vo proofs/Cancel_proofs.glob proofs/Cancel_proofs.v.beautified proofs/Cancel_proofs.required_vo: proofs/Cancel_proofs.v gen/Facts_vm_sites.vo model/CancelM.vo
 proofs/Cancel_proofs.vio: proofs/Cancel_proofs.v gen/Facts_vm_sites.vio model/CancelM.vio
 proofs/Cancel_proofs.vos proofs/Cancel_proofs.vok proofs/Cancel_proofs.required_vos: proofs/Cancel_proofs.v gen/Facts_vm_sites.vos model/CancelM.vos
@@ -46,6 +52,12 @@ proofs/HTMLEscape_proofs.vos proofs/HTMLEscape_proofs.vok proofs/HTMLEscape_proo
 proofs/HtmlDecode_proofs.vo proofs/HtmlDecode_proofs.glob proofs/HtmlDecode_proofs.v.beautified proofs/HtmlDecode_proofs.required_vo: proofs/HtmlDecode_proofs.v lib/Bytes.vo lib/Utf8.vo model/HtmlDecode.vo
 proofs/HtmlDecode_proofs.vio: proofs/HtmlDecode_proofs.v lib/Bytes.vio lib/Utf8.vio model/HtmlDecode.vio
 proofs/HtmlDecode_proofs.vos proofs/HtmlDecode_proofs.vok proofs/HtmlDecode_proofs.required_vos: proofs/HtmlDecode_proofs.v lib/Bytes.vos lib/Utf8.vos model/HtmlDecode.vos
+proofs/Isolation_proofs.vo proofs/Isolation_proofs.glob proofs/Isolation_proofs.v.beautified proofs/Isolation_proofs.required_vo: proofs/Isolation_proofs.v model/IsolationM.vo
+proofs/Isolation_proofs.vio: proofs/Isolation_proofs.v model/IsolationM.vio
+proofs/Isolation_proofs.vos proofs/Isolation_proofs.vok proofs/Isolation_proofs.required_vos: proofs/Isolation_proofs.v model/IsolationM.vos
+props/C10.vo props/C10.glob props/C10.v.beautified props/C10.required_vo: props/C10.v gen/Facts_vm_writes.vo model/IsolationM.vo proofs/Isolation_proofs.vo model/FramesM.vo
+props/C10.vio: props/C10.v gen/Facts_vm_writes.vio model/IsolationM.vio proofs/Isolation_proofs.vio model/FramesM.vio
+props/C10.vos props/C10.vok props/C10.required_vos: props/C10.v gen/Facts_vm_writes.vos model/IsolationM.vos proofs/Isolation_proofs.vos model/FramesM.vos
 props/C11.vo props/C11.glob props/C11.v.beautified props/C11.required_vo: props/C11.v gen/Facts_vm_sites.vo model/CancelM.vo proofs/Cancel_proofs.vo
 props/C11.vio: props/C11.v gen/Facts_vm_sites.vio model/CancelM.vio proofs/Cancel_proofs.vio
 props/C11.vos props/C11.vok props/C11.required_vos: props/C11.v gen/Facts_vm_sites.vos model/CancelM.vos proofs/Cancel_proofs.vos
